@@ -165,8 +165,16 @@ def build(ex):
             ex2.oblige('block', z3.BoolVal(len(lst) == 2), 'connection.wait() includes the child\'s sentinel, so a child that dies before reporting releases the constructor',
                        ex2.ghost.get('__cur_node__'), key=('wait-sentinel',))
             d = ex2.choose(2, 'wait:ready')
+            if d == 0:
+                # the pipe is reported ready: the child has written its identity (EOF is impossible here, see below)
+                ac2 = ex2.abs_classes['Conn']
+                ex2.assume(ac2.get(ex2, env['comms_parent'], 'ipos') < z3.Length(ac2.get(ex2, env['comms_parent'], 'inq')))
             return ex2.alloc(HList([lst[0]] if d == 0 else [lst[1]]))
         ex_.ghost['__conn_wait__'] = conn_wait
+        # T3: a pipe reports EOF only when EVERY copy of its write end is closed; the parent still holds its own copy of the child's end while _start runs
+        # (ProcessWorker.__init__ closes it afterwards), so a child that dies before reporting does NOT make a plain recv() on the pipe return: it blocks
+        ex_.abs_classes['Conn'].set(ex_, env['comms_parent'], 'peer_closed', z3.BoolVal(False))
+        ex_.ghost['on_block'] = 'oblige'
         ex_.ext_models['multiprocessing.get_context'] = lambda ex2, a_, k: VExt('mpctx')
         ex_.ext_models['mpctx.Process'] = common.new_thread
     L1d = Contract(
